@@ -647,7 +647,8 @@ def rule_user_bounds_flow(ctx):
                 continue
             out = fn.node["sig"].get("output")
             rt = A.expr_text(f, out[1] if isinstance(out, list) else out) if out and out != "ReturnType::Default" else ""
-            if "WherePredicate" not in rt:
+            # producers of the *list* of predicates (a helper building one predicate is judged at its caller)
+            if not re.search(r"Vec<\s*(?:syn::)?WherePredicate", rt):
                 continue
             roots = sorted(_attr_values(ctx, fn))
             owner = fn.qual.split("::")[0] if "::" in fn.qual else None
